@@ -16,8 +16,10 @@ Prop == IOEnv.PROP
 T == ndJsonDeserialize(IOEnv.TRACE)
 N == Len(T)
 
-VARIABLES l, viol, skipping, curcase, memo, cnt
-tvars == <<l, viol, skipping, curcase, memo, cnt>>
+VARIABLES l, viol, skipping, curcase, memo, cnt, fault
+tvars == <<l, viol, skipping, curcase, memo, cnt, fault>>
+\* fault = [on, opi, base]: C17 fault-injection runs are compared, operation by
+\* operation, with the fault-free run of the same case (base)
 
 On(p) == Prop = p \/ Prop = "FULL"
 F(ok, name) == IF ok THEN {} ELSE {name}
@@ -275,10 +277,45 @@ CodecBatchFails(e) ==
                                     ELSE e.nulls[i] = 1), "C11.dec"))
 
 (***************************************************************************)
+(* allocation faults (C17): result of an operation in a run with one       *)
+(* failing allocation vs the same operation in the fault-free run          *)
+(***************************************************************************)
+ErrFlags(items) == [i \in DOMAIN items |-> <<items[i].err, items[i].kid, items[i].kty, items[i].bits>>]
+SameRes(e, b) ==
+  CASE e.e = "Load" -> e.retnull = b.retnull /\ (e.retnull = 0 => (e.seterr = b.seterr /\ e.count = b.count /\ ErrFlags(e.new) = ErrFlags(b.new)))
+    [] e.e \in {"CNew", "BNew"} -> e.ok = b.ok
+    [] e.e \in {"CSetKey", "BSetKey", "CLeeway", "BOffset", "CClaimSet", "CClaimDel", "CSetCb", "BSetCb", "BIat", "Ops", "OpsT"} -> e.ret = b.ret
+    [] e.e = "BMap" -> e.ret = b.ret /\ (Has(e, "got") => e.got = b.got /\ e.gotmap = b.gotmap) /\ (Has(e, "hdr") => e.hdr = b.hdr /\ e.clm = b.clm)
+    [] e.e = "Verify" -> (e.ret = 0) <=> (b.ret = 0)
+    [] e.e = "Generate" -> e.ret = b.ret /\ (e.ret = "tok" =>
+                              /\ e.thdr = b.thdr /\ e.tclm = b.tclm /\ e.talg = b.talg /\ e.dots = b.dots /\ e.canon = b.canon
+                              /\ (e.validby = <<>>) = (b.validby = <<>>) /\ (e.tsiglen = 0) = (b.tsiglen = 0))
+    [] e.e \in {"ItemFree", "FreeBad", "FreeAll"} -> e.ret = b.ret /\ e.count = b.count
+    [] e.e \in {"ItemGet", "Find"} -> (e.id = -1) = (b.id = -1)
+    [] e.e \in {"Count", "ErrAny"} -> e.ret = b.ret
+    [] OTHER -> TRUE
+\* the documented failure channel of each call
+FailedThroughChannel(e) ==
+  CASE e.e = "Load" -> e.retnull = 1 \/ e.seterr = 1 \/ \E i \in DOMAIN e.new : e.new[i].err = 1
+    [] e.e \in {"CNew", "BNew"} -> e.ok = 0
+    [] e.e \in {"CSetKey", "BSetKey", "CLeeway", "BOffset", "CClaimSet", "CClaimDel", "CSetCb", "BSetCb"} -> e.ret # 0
+    [] e.e = "BMap" -> e.ret \in {"NOMEM", "INVALID"}
+    [] e.e = "Verify" -> e.ret # 0
+    [] e.e = "Generate" -> e.ret = "null"
+    [] OTHER -> FALSE
+FaultFails(e) ==
+  IF ~fault.on \/ ~On("C17") THEN {}
+  ELSE IF fault.opi + 1 > Len(fault.base) THEN {"C17.extra-event"}
+  ELSE LET b == fault.base[fault.opi + 1] IN
+       F(e.e = b.e, "C17.event-order")
+       \cup (IF e.e # b.e THEN {} ELSE F(SameRes(e, b) \/ FailedThroughChannel(e), "C17." \o e.e))
+
+(***************************************************************************)
 (* dispatch                                                                *)
 (***************************************************************************)
 LeakProps == {"C06", "C07", "C16", "C17", "C11", "FULL"}
-Fails(e) ==
+IsOpEvent(e) == e.e \notin {"Case", "EndCase", "End", "Abort", "FaultRun", "FaultEnd"}
+Fails(e) == (IF IsOpEvent(e) THEN FaultFails(e) ELSE {}) \cup
   CASE e.e = "Load" -> LoadFails(e)
     [] e.e \in {"ItemGet", "Count", "Find", "ItemFree", "FreeBad", "FreeAll", "ErrAny"} -> RingFails(e)
     [] e.e = "BMap" -> BMapFails(e)
@@ -341,7 +378,8 @@ Reset ==
 TInit ==
   /\ Init
   /\ l = 1 /\ viol = <<>> /\ skipping = FALSE /\ curcase = "-" /\ memo = [k \in {} |-> 0]
-  /\ cnt = [cases |-> 0, judged |-> 0, skipped |-> 0, shortrs |-> 0]
+  /\ cnt = [cases |-> 0, judged |-> 0, skipped |-> 0, shortrs |-> 0, faultruns |-> 0]
+  /\ fault = [on |-> FALSE, opi |-> 0, base |-> <<>>]
 
 MaxViol == 200
 
@@ -353,21 +391,32 @@ TNext ==
           /\ Reset
           /\ curcase' = e.id /\ skipping' = FALSE /\ memo' = [k \in {} |-> 0]
           /\ cnt' = [cnt EXCEPT !.cases = @ + 1]
+          /\ fault' = [on |-> FALSE, opi |-> 0, base |-> <<>>]
           /\ UNCHANGED viol
+     ELSE IF e.e = "FaultRun" THEN
+          \* a new run of the same case with allocation request k failing: fresh state, same base
+          /\ Reset
+          /\ skipping' = FALSE /\ memo' = [k \in {} |-> 0]
+          /\ cnt' = [cnt EXCEPT !.faultruns = @ + 1]
+          /\ fault' = [fault EXCEPT !.on = TRUE, !.opi = 0]
+          /\ UNCHANGED <<viol, curcase>>
      ELSE IF skipping /\ e.e # "Abort" THEN
           /\ cnt' = [cnt EXCEPT !.skipped = @ + 1]
-          /\ UNCHANGED <<vars, viol, skipping, curcase, memo>>
+          /\ UNCHANGED <<vars, viol, skipping, curcase, memo, fault>>
      ELSE LET f == Fails(e) IN
           IF f # {} THEN
                /\ viol' = IF Len(viol) < MaxViol
                           THEN Append(viol, [case |-> curcase, line |-> l, ev |-> e.e, clauses |-> f]) ELSE viol
                /\ skipping' = TRUE
                /\ cnt' = [cnt EXCEPT !.judged = @ + 1]
-               /\ UNCHANGED <<vars, curcase, memo>>
+               /\ UNCHANGED <<vars, curcase, memo, fault>>
           ELSE /\ Apply(e)
                /\ memo' = Memo(e)
                /\ cnt' = [cnt EXCEPT !.judged = @ + 1,
                                      !.shortrs = IF e.e = "Generate" /\ Has(e, "rs_short") /\ e.rs_short = 1 THEN @ + 1 ELSE @]
+               /\ fault' = IF ~IsOpEvent(e) THEN fault
+                           ELSE IF fault.on THEN [fault EXCEPT !.opi = @ + 1]
+                           ELSE IF Prop = "C17" THEN [fault EXCEPT !.base = Append(@, e)] ELSE fault
                /\ UNCHANGED <<viol, skipping, curcase>>
 
 TSpec == TInit /\ [][TNext]_<<vars, tvars>>
